@@ -136,6 +136,7 @@ func dirMember(p string, mode os.FileMode, mt time.Time) config.FileConfig {
 
 // restoreBytes reads an entry's content through Operations.Restore.
 func restoreBytes(r *Rig, p string) ([]byte, error) {
+	stepBegin()
 	var out *bufCloser
 	err := r.ROps.Restore(
 		func(path string, mode iofs.FileMode) (io.WriteCloser, error) {
@@ -159,6 +160,7 @@ func fetchBytes(r *Rig, record, block int64) ([]byte, error) {
 	// the harness uses the backend directly here, outside the Operations lock: wait until a restore goroutine that is
 	// still closing its reader (File.Read returns before it is done) has released the drive, or we would share its reader
 	r.LocksSettled()
+	stepBegin()
 	rd, err := r.BE.GetReader()
 	if err != nil {
 		return nil, err
